@@ -50,7 +50,7 @@ theorem Source.find_of_mem {s : Source} (hnd : (s.map (·.uid)).Nodup) {it : Ite
 
 theorem maxPartDefined_elim {s : Source} {args : List Nat} (h : maxPartDefined s args = true) :
     args ≠ [] ∧ ∀ u ∈ args, ∃ it, s.find u = some it ∧
-      (it.isBaseSet = true ∨ checkCst it args = true) := by
+      checkCst it args = true := by
   unfold maxPartDefined at h
   rw [Bool.and_eq_true, List.all_eq_true] at h
   refine ⟨by intro e; simp [e] at h, fun u hu => ?_⟩
